@@ -875,14 +875,82 @@ func (m *Model) RunScope(s *Sink, rule string) {
 			}
 		}
 	}
+	// ... and on every pass: between the head of the loop and the evaluation of the body there is no way around
+	// SetLoopVar (a loop object bound only "when the body mentions loop" is missing for a component used in the body,
+	// whose file the parser of the page never saw)
+	if slv != nil {
+		ev := m.Method("evaluator", "Evaluator", "Eval")
+		var evalFns []*ssa.Function
+		for _, fn := range m.ModFns {
+			if fn.Blocks != nil && shortPkg(fnPkgPath(fn)) == "evaluator" {
+				evalFns = append(evalFns, fn)
+			}
+		}
+		ci := m.newPassInfo(func(c ssa.CallInstruction) bool { return c.Common().StaticCallee() == slv }, func(*ssa.Call) bool { return false }, evalFns, []*ssa.Function{m.Method("evaluator", "Evaluator", "Eval")}) // not through the recursive dispatch: a nested @each is another loop
+		// the functions that bind a loop object themselves or through helpers — not through the recursive dispatch (a
+		// nested @each is another loop)
+		var binds func(f *ssa.Function, seen map[*ssa.Function]bool) bool
+		binds = func(f *ssa.Function, seen map[*ssa.Function]bool) bool {
+			if seen[f] || f == ev || f.Blocks == nil {
+				return false
+			}
+			seen[f] = true
+			for _, b := range f.Blocks {
+				for _, in := range b.Instrs {
+					if c, ok := in.(ssa.CallInstruction); ok {
+						if sc := c.Common().StaticCallee(); sc == slv || (sc != nil && shortPkg(fnPkgPath(sc)) == "evaluator" && binds(sc, seen)) {
+							return true
+						}
+					}
+				}
+			}
+			return false
+		}
+		for _, fn := range evalFns {
+			if ev == nil || !binds(fn, map[*ssa.Function]bool{}) {
+				continue
+			}
+			for _, li := range naturalLoops(fn) {
+				for b := range li.body {
+					for i, in := range b.Instrs {
+						c, isC := in.(*ssa.Call)
+						if !isC || c.Call.StaticCallee() != ev || len(c.Call.Args) < 2 || !strings.HasSuffix(fieldPathOf(stripIface(c.Call.Args[1])), ".Block") {
+							continue
+						}
+						key := fnKey(fn) + "|the loop object is bound on every pass"
+						target, idx := b, i
+						if ci.pathAvoiding(fn, li.header, 0, func(x *ssa.BasicBlock) bool { return x == target && !ci.blockConsumesBefore(x, idx) }, li.body) {
+							s.Violation(rule, key, m.InstrPos(c), "%s can reach the evaluation of the loop's body from the head of the loop without calling SetLoopVar: on such a pass `loop` is missing (or is the enclosing loop's object) for whatever the body evaluates — a component used in the body reads loop.iter / loop.last of another loop", fnKey(fn))
+						} else {
+							s.OK(rule, key, m.InstrPos(c), "every path from the head of the loop to the evaluation of the body passes SetLoopVar")
+						}
+					}
+				}
+			}
+		}
+	}
 	// data is bound through Set
 	efm := m.PkgFunc("object", "EnvFromMap")
 	if efm != nil && set != nil {
+		// Set is called by EnvFromMap or by a helper of its package it hands the pair to (that nothing else writes a
+		// scope's store is the clause above)
 		ok := false
-		for _, b := range efm.Blocks {
-			for _, in := range b.Instrs {
-				if c, isC := in.(*ssa.Call); isC && c.Call.StaticCallee() == set {
-					ok = true
+		work := []*ssa.Function{efm}
+		seenW := map[*ssa.Function]bool{efm: true}
+		for i := 0; i < len(work) && i < 16; i++ {
+			for _, b := range work[i].Blocks {
+				for _, in := range b.Instrs {
+					c, isC := in.(*ssa.Call)
+					if !isC || c.Call.StaticCallee() == nil {
+						continue
+					}
+					sc := c.Call.StaticCallee()
+					if sc == set {
+						ok = true
+					} else if !seenW[sc] && sc.Blocks != nil && shortPkg(fnPkgPath(sc)) == "object" {
+						seenW[sc] = true
+						work = append(work, sc)
+					}
 				}
 			}
 		}
